@@ -82,3 +82,11 @@ func vfDirectedAll() [][]byte {
 	}
 	return out
 }
+
+// intn never panics: a non-positive bound yields 0 (a generator bug must not look like a finding)
+func (g *vfGen) intn(n int) int {
+	if n <= 0 {
+		return 0
+	}
+	return g.rng.Intn(n)
+}
